@@ -61,6 +61,9 @@ fn main() {
             std::process::exit(1);
         }
         Ok(()) => {
+            for l in tape::COVERED.with(|f| f.borrow().clone()) {
+                println!("REPLAY-COVER: {l}");
+            }
             let failed = tape::FAILED.with(|f| f.borrow().clone());
             if failed.is_empty() {
                 println!("REPLAY: no obligation failed on this input");
